@@ -515,6 +515,16 @@ func wholeMenu(w *world.World, o menuOpts) []world.Action {
 		uni.Call(uni.A0, uni.A0, vmcommon.BuiltInFunctionESDTNFTCreate, uni.S, lz, []byte("n"), []byte{0, 100}, []byte("h"), []byte("a"), []byte("u")),
 		uni.Call(uni.A0, uni.A0, vmcommon.BuiltInFunctionMultiESDTNFTTransfer, uni.C1, []byte{0, 2}, uni.S, lz, lz, uni.F, []byte{0}, lz),
 		uni.Call(uni.A0, uni.A0, vmcommon.BuiltInFunctionMultiESDTNFTTransfer, uni.B0, lz, uni.F, []byte{0, 0}, lz))
+	// the same by a contract (its burn is forwarded to the system contract with the arguments it
+	// was given), plain and as an asynchronous call
+	{
+		cb := uni.Call(uni.S0, uni.ESDT, vmcommon.BuiltInFunctionESDTBurn, uni.F, lz)
+		ca := cb
+		ca.CallType = vmcommon.AsynchronousCall
+		ct := uni.Call(uni.S0, uni.B0, vmcommon.BuiltInFunctionESDTTransfer, uni.F, lz)
+		cx := uni.Call(uni.S0, uni.C1, vmcommon.BuiltInFunctionESDTTransfer, uni.F, []byte{0, 0, 1})
+		acts = append(acts, cb, ca, ct, cx)
+	}
 	// variable-length argument tails with empty arguments in every position (a function that
 	// filters, compacts or reorders its argument list in place shows here)
 	e, u1, u2 := []byte{}, []byte("u1"), []byte("uri-2")
